@@ -4,6 +4,7 @@ C09 — Key lookups return the last live message with exactly that key.
 import Klev.Proofs.KeyOK
 import Klev.Proofs.ExtRun
 import Klev.Proofs.ExtReads
+import Klev.Proofs.Witness
 namespace Klev.C09
 
 /-- **Refinement.** On every log state satisfying the invariant (and whose indexes carry the
@@ -150,6 +151,55 @@ theorem lookups_ok_monoX (oo : OpenOpts) (xs : List OpX) (hsame : SameParamsX oo
   Klev.lookups_ok_monoX oo xs hsame hmono
 
 end Klev.C09
+
+/-! ### Non-vacuity
+
+The theorems at the witness log `Witness.wL` (key index and time index on; key `[1]` published
+at offsets 0, 2, 6, key `[2]` at 1, 8, key `[3]` only at the deleted offset 3, key `[6]` at 4
+without value), at the extended history `Witness.xs` (lookups inside, state `Witness.wX`) and at
+a key-index-only history `Witness.xsK` whose times decrease (`Klev/Proofs/Witness.lean`). All
+hypotheses were obtained from the reachability theorems of this file. -/
+section NonVacuity
+open Klev Klev.Witness
+
+example := Klev.C09.getByKey_ok wL wL_inv wL_keysInv [1]
+example := Klev.C09.getByKey_ok wL wL_inv wL_keysInv [3]
+example := Klev.C09.consumeByKey_ok wL wL_inv wL_keysInv [1] 1 10
+example := Klev.C09.getByKey_keeps wL wL_inv wL_keysInv [2]
+example := Klev.C09.derive_keys ⟨true, true⟩ .v2 (abs wL).live rfl
+example := Klev.C09.consumeByKey_keeps wL wL_inv wL_keysInv [1] 0 2
+example : KeysInv l0 := Klev.C09.keysInv_open_empty oo l0 open_l0
+example := Klev.C09.keysInv_step wL wL_inv wL_keysOn wL_keysInv (.delete [4]) trivial
+example := Klev.C09.keysInv_step wL wL_inv wL_keysOn wL_keysInv (.reopen [0, 5] (some .v1) true oo)
+  (show oo.opts.params = wL.opts.params by decide)
+-- `KeysInv' wL` itself is an instance of `keysInv'_run` (from the empty log), and `wL` is a
+-- legitimate starting state again
+example : KeysInv' wL := Klev.C09.keysInv'_run l0 l0_inv (fun _ => keysInv_open_empty oo l0 open_l0) ops ops_same
+example := Klev.C09.keysInv'_run wL wL_inv wL_keysInv' [.publish [(60, [1], [])], .delete [0], .gc]
+  ⟨trivial, trivial, trivial, trivial⟩
+example := Klev.C09.getByKey_ok' wL wL_inv wL_keysInv' [6]
+example := Klev.C09.consumeByKey_ok' wL wL_inv wL_keysInv' [2] offsetOldest 0
+example := Klev.C09.getByKey_ok_run oo ops ops_same [1] l0 open_l0
+example := Klev.C09.consumeByKey_ok_run oo ops ops_same [1] 1 10 l0 open_l0
+example := Klev.C09.good_lookups wL_good
+example := Klev.C09.good_lookups wX_good
+example := Klev.C09.lookups_ok_runX oo xs xs_same l0 open_l0 (fun _ => xs_timesOK)
+example := Klev.C09.key_lookups_ok_runX ooK xsK xsK_same rfl l0K open_l0K
+example := Klev.C09.lookups_ok_monoX oo xs xs_same (fun _ => xs_mono) l0 open_l0
+
+-- evaluated
+example : (wL.getByKey [1]).2 = .ok ⟨6, 40, [1], [6]⟩ ∧ (wL.getByKey [2]).2 = .ok ⟨8, 50, [2], [8]⟩ ∧
+    (wL.getByKey [6]).2 = .ok ⟨4, 30, [6], []⟩ ∧ (wL.getByKey [3]).2 = .err .notFound ∧
+    (wL.getByKey []).2 = .err .notFound := by decide
+example : (wL.consumeByKey [1] 1 10).2 = .ok (3, [⟨2, 20, [1], [3]⟩]) ∧
+    (wL.consumeByKey [1] 0 1).2 = .ok (1, [⟨0, 10, [1], [1]⟩]) ∧
+    (wL.consumeByKey [1] 7 1).2 = .ok (9, []) ∧ (wL.consumeByKey [3] 0 1).2 = .ok (9, []) := by decide
+example : (wX.getByKey [1]).2 = (wL.getByKey [1]).2 := by decide
+example : (abs (runX l0K xsK)).live.map (fun m => (m.off, m.time, m.key)) = [(1, 20, [2]), (2, 5, [1]), (3, 5, [3])] ∧
+    ((runX l0K xsK).getByKey [1]).2 = .ok ⟨2, 5, [1], [3]⟩ ∧
+    ((runX l0K xsK).getByTime 3).2 = .err .noIndex := by decide
+
+end NonVacuity
 
 #print axioms Klev.C09.getByKey_ok
 #print axioms Klev.C09.consumeByKey_ok
